@@ -293,6 +293,7 @@ let () =
            | ["bsreg"; k; t; h; c] -> Hashtbl.replace bs_table k (unhex t, unhex h, (if c = "-" then None else Some (unhex c))); "SET"
            | "bs" :: args -> do_bs args
            | "compile" :: args -> do_compile args
+           | ["wf"; gid] -> if well_formed (Hashtbl.find grammars gid) then "WF\t1" else "WF\t0"
            | other :: _ -> "UNKNOWN\t" ^ other
            | [] -> "EMPTY"
          with
